@@ -1,3 +1,876 @@
+(* C19 proofs.  The generated definitions of Gen.v are unfolded here: an edit of the source that
+   changes a comparison, a constant or the framing decision breaks these proofs. *)
 From Coq Require Import ZArith Lia ZifyBool ZifyN.
-From Wz Require Import lib.Bytes lib.BytesFacts C09.BaseFacts C19.Base C19.Gen C19.Model.
+From Wz Require Import lib.Bytes lib.BytesFacts lib.Utf8 lib.Utf8Facts C09.BaseFacts C19.Base C19.Gen C19.Model.
 Open Scope N_scope.
+
+Ltac spl := repeat match goal with |- _ /\ _ => split end.
+
+(* ------------------------------------------------------------------ pins and generated comparisons *)
+Lemma source_pins :
+  list_eqb chunk_size_re_text [91; 48; 45; 57; 65; 45; 70; 97; 45; 102; 93; 43] && (chunk_size_re_flags =? 256)
+  && (dc_int_base =? 16) = true.
+Proof. vm_compute. reflexivity. Qed.
+
+Lemma dc_continue_eq d r s : dc_continue d (Z.of_N r) (Z.of_N s) = negb d && (r <? s).
+Proof. unfold dc_continue. destruct d; cbn [negb andb]; lia. Qed.
+Lemma dc_zero1_eq l : dc_zero1 (Z.of_N l) = (l =? 0).
+Proof. unfold dc_zero1. lia. Qed.
+Lemma dc_zero2_eq l : dc_zero2 (Z.of_N l) = (l =? 0).
+Proof. unfold dc_zero2. lia. Qed.
+Lemma dc_zero3_eq l : dc_zero3 (Z.of_N l) = (l =? 0).
+Proof. unfold dc_zero3. lia. Qed.
+Lemma dc_pos_eq l : dc_pos (Z.of_N l) = (0 <? l).
+Proof. unfold dc_pos. lia. Qed.
+Lemma dc_n_eq s r l : r < s -> Z.to_N (dc_n (Z.of_N s) (Z.of_N r) (Z.of_N l)) = N.min (s - r) l.
+Proof. unfold dc_n. lia. Qed.
+Lemma dc_short_eq a b : dc_short (Z.of_N a) (Z.of_N b) = negb (a =? b).
+Proof. unfold dc_short. lia. Qed.
+Lemma dc_neg_eq v : dc_neg (Z.of_N v) = false.
+Proof. unfold dc_neg. lia. Qed.
+Lemma terminators_eq t : mem_bytes t dc_terminators = is_term t.
+Proof.
+  unfold mem_bytes, dc_terminators, is_term, CRLF, LF, CR. cbn [existsb].
+  destruct (list_eqb t [10]); destruct (list_eqb t [13; 10]); destruct (list_eqb t [13]); reflexivity.
+Qed.
+
+(* ------------------------------------------------------------------ readline *)
+Lemma partition1_some x s a b : partition1 x s = (a, Some b) -> s = a ++ x :: b.
+Proof.
+  revert a b. induction s as [|y s IH]; cbn [partition1]; intros a b H; [discriminate|].
+  destruct (x =? y) eqn:E.
+  - inversion H; subst. apply N.eqb_eq in E. subst y. reflexivity.
+  - destruct (partition1 x s) as [a' b'] eqn:P. inversion H; subst. cbn [app]. f_equal. apply IH. reflexivity.
+Qed.
+
+Lemma partition1_none x s a : partition1 x s = (a, None) -> s = a.
+Proof.
+  revert a. induction s as [|y s IH]; cbn [partition1]; intros a H; [inversion H; reflexivity|].
+  destruct (x =? y); [discriminate|].
+  destruct (partition1 x s) as [a' b'] eqn:P. inversion H; subst. f_equal. apply IH. reflexivity.
+Qed.
+
+Lemma readline_split w line r : rf_readline w = (line, r) -> w = line ++ r /\ (w <> [] -> line <> []).
+Proof.
+  unfold rf_readline. destruct (partition1 LF w) as [a [b|]] eqn:P; intro H; inversion H; subst.
+  - apply partition1_some in P. split; [rewrite P, <- app_assoc; reflexivity|].
+    intros _. destruct a; discriminate.
+  - apply partition1_none in P. rewrite app_nil_r. split; [exact P|]. intro Hw. rewrite <- P. exact Hw.
+Qed.
+
+Lemma readline_len w line r : rf_readline w = (line, r) ->
+  (length r <= length w)%nat /\ (line <> [] -> (length r < length w)%nat).
+Proof.
+  intro H. apply readline_split in H. destruct H as [H _]. subst w. rewrite app_length. split; [lia|].
+  intro Hl. destruct line; [congruence|]. cbn [length]. lia.
+Qed.
+
+Lemma hex_line_nonempty line : hex_str (strip uni_ws line) = true -> line <> [].
+Proof. intros H E. subst line. discriminate. Qed.
+
+(* read_chunk_len with the unreachable negative test removed *)
+Lemma read_chunk_len_eq rest :
+  read_chunk_len rest =
+    (let '(line, r) := rf_readline rest in
+     if hex_str (strip uni_ws line) then Ok (hex_value (strip uni_ws line), r) else Err OSErrorE).
+Proof.
+  unfold read_chunk_len. destruct (rf_readline rest) as [line r].
+  destruct (hex_str (strip uni_ws line)); [rewrite dc_neg_eq|]; reflexivity.
+Qed.
+
+Lemma read_chunk_len_progress rest v r : read_chunk_len rest = Ok (v, r) -> (length r < length rest)%nat.
+Proof.
+  rewrite read_chunk_len_eq. destruct (rf_readline rest) as [line r'] eqn:R.
+  destruct (hex_str (strip uni_ws line)) eqn:Hh; intro H; inversion H; subst.
+  apply readline_len in R. apply R. apply hex_line_nonempty. exact Hh.
+Qed.
+
+(* ------------------------------------------------------------------ the reference decoder *)
+Definition Dof (x : bytes * bool * bytes) : bytes := fst (fst x).
+Definition Cof (x : bytes * bool * bytes) : bool := snd (fst x).
+Definition Tof (x : bytes * bool * bytes) : bytes := snd x.
+Definition prepend (d : bytes) (x : bytes * bool * bytes) : bytes * bool * bytes := (d ++ Dof x, Cof x, Tof x).
+
+Lemma prepend_let d x : (let '(b, c, tl) := x in (d ++ b, c, tl)) = prepend d x.
+Proof. destruct x as [[b c] tl]. reflexivity. Qed.
+
+Lemma ref_fuel : forall f1 f2 w, (length w < f1)%nat -> (length w < f2)%nat -> ref_dechunk f1 w = ref_dechunk f2 w.
+Proof.
+  induction f1 as [|f1 IH]; intros f2 w H1 H2; [inversion H1|]. destruct f2 as [|f2]; [inversion H2|].
+  cbn [ref_dechunk]. destruct (rf_readline w) as [line r] eqn:R.
+  destruct (hex_str (strip uni_ws line)) eqn:Hh; [|reflexivity].
+  destruct (hex_value (strip uni_ws line) =? 0); [reflexivity|].
+  destruct (lenN (takeN (hex_value (strip uni_ws line)) r) <? hex_value (strip uni_ws line)); [reflexivity|].
+  destruct (rf_readline (dropN (hex_value (strip uni_ws line)) r)) as [term r2] eqn:R2.
+  destruct (is_term term); [|reflexivity].
+  assert (Hlen : (length r2 < length w)%nat).
+  { apply readline_len in R. destruct R as [_ R]. specialize (R (hex_line_nonempty _ Hh)).
+    apply readline_len in R2. destruct R2 as [R2 _]. unfold dropN in R2. rewrite skipn_length in R2. lia. }
+  rewrite (IH f2 r2) by lia. reflexivity.
+Qed.
+
+(* the decoding of what follows when n bytes of the current chunk are still due *)
+Definition ref_mid (n : N) (r : bytes) : bytes * bool * bytes :=
+  let data := takeN n r in
+  if lenN data <? n then (data, false, [])
+  else let '(term, r2) := rf_readline (dropN n r) in
+       if is_term term then prepend data (ref r2) else (data, false, []).
+
+Lemma ref_unfold w :
+  ref w = (let '(line, r) := rf_readline w in
+           let t := strip uni_ws line in
+           if hex_str t then
+             if hex_value t =? 0
+             then let '(term, r2) := rf_readline r in if is_term term then ([], true, r2) else ([], false, [])
+             else ref_mid (hex_value t) r
+           else ([], false, [])).
+Proof.
+  unfold ref at 1. cbn [ref_dechunk]. destruct (rf_readline w) as [line r] eqn:R. cbv zeta.
+  destruct (hex_str (strip uni_ws line)) eqn:Hh; [|reflexivity].
+  destruct (hex_value (strip uni_ws line) =? 0); [reflexivity|].
+  unfold ref_mid. cbv zeta.
+  destruct (lenN (takeN (hex_value (strip uni_ws line)) r) <? hex_value (strip uni_ws line)); [reflexivity|].
+  destruct (rf_readline (dropN (hex_value (strip uni_ws line)) r)) as [term r2] eqn:R2.
+  destruct (is_term term); [|reflexivity].
+  rewrite prepend_let. unfold ref. f_equal. apply ref_fuel; [|lia].
+  apply readline_len in R. destruct R as [_ R]. specialize (R (hex_line_nonempty _ Hh)).
+  apply readline_len in R2. destruct R2 as [R2 _]. unfold dropN in R2. rewrite skipn_length in R2. lia.
+Qed.
+
+(* ------------------------------------------------------------------ the stateful decoder against the reference *)
+Definition final_of (r : bytes) : bytes * bool * bytes :=
+  let '(term, r2) := rf_readline r in if is_term term then ([], true, r2) else ([], false, []).
+
+(* what the reference decoder makes of the input still ahead of a DechunkedInput state *)
+Definition ref_state (st : dst) : bytes * bool * bytes :=
+  if d_done st then ([], true, d_rest st)
+  else if d_len st =? 0 then ref (d_rest st) else ref_mid (d_len st) (d_rest st).
+
+Definition peel (d : bytes) (x y : bytes * bool * bytes) : Prop :=
+  Dof x = d ++ Dof y /\ Cof x = Cof y /\ Tof x = Tof y.
+
+Lemma peel_refl x : peel [] x x.
+Proof. unfold peel. auto. Qed.
+Lemma peel_trans d1 d2 x y z : peel d1 x y -> peel d2 y z -> peel (d1 ++ d2) x z.
+Proof. unfold peel. intros [A [B C]] [A' [B' C']]. spl; try congruence. rewrite A, A', app_assoc. reflexivity. Qed.
+Lemma peel_prepend d x : peel d (prepend d x) x.
+Proof. unfold peel, prepend, Dof, Cof, Tof. cbn [fst snd]. auto. Qed.
+Lemma prepend_nil x : prepend [] x = x.
+Proof. destruct x as [[b c] t]. reflexivity. Qed.
+Lemma prepend_app a b x : prepend (a ++ b) x = prepend a (prepend b x).
+Proof. unfold prepend, Dof, Cof, Tof. cbn [fst snd]. rewrite app_assoc. reflexivity. Qed.
+
+Lemma takeN_split n len r : n <= len -> takeN len r = takeN n r ++ takeN (len - n) (dropN n r).
+Proof.
+  unfold takeN, dropN. intro H. replace (N.to_nat len) with (N.to_nat n + N.to_nat (len - n))%nat by lia.
+  generalize (N.to_nat (len - n)) as k. generalize (N.to_nat n) as m. clear.
+  induction m as [|m IH]; intros k; [reflexivity|]. destruct r as [|x r]; cbn [Nat.add firstn skipn app].
+  - destruct k; reflexivity.
+  - f_equal.
+    assert (G : forall (l : list N), firstn (m + k) l = firstn m l ++ firstn k (skipn m l)).
+    { clear. induction m as [|m IHm]; intro l; [reflexivity|]. destruct l as [|y l]; cbn [Nat.add firstn skipn app].
+      - destruct k; reflexivity.
+      - f_equal. apply IHm. }
+    apply G.
+Qed.
+
+Lemma ref_mid_split n len r : n <= len -> lenN (takeN n r) = n ->
+  ref_mid len r = prepend (takeN n r) (ref_mid (len - n) (dropN n r)).
+Proof.
+  intros Hle Hn. unfold ref_mid. cbv zeta. rewrite (takeN_split n len r Hle).
+  rewrite lenN_app, Hn.
+  replace (n + lenN (takeN (len - n) (dropN n r)) <? len) with (lenN (takeN (len - n) (dropN n r)) <? len - n) by lia.
+  destruct (lenN (takeN (len - n) (dropN n r)) <? len - n).
+  - unfold prepend, Dof, Cof, Tof. reflexivity.
+  - rewrite dropN_dropN. replace (n + (len - n)) with len by lia.
+    destruct (rf_readline (dropN len r)) as [term r2]. destruct (is_term term).
+    + rewrite prepend_app. reflexivity.
+    + unfold prepend, Dof, Cof, Tof. reflexivity.
+Qed.
+
+Lemma ref_mid_zero r : ref_mid 0 r = (let '(term, r2) := rf_readline r in
+                                      if is_term term then ref r2 else ([], false, [])).
+Proof.
+  unfold ref_mid. cbv zeta. rewrite takeN_0, dropN_0. cbn [lenN length N.of_nat N.ltb N.compare].
+  destruct (rf_readline r) as [term r2]. destruct (is_term term); [apply prepend_nil|reflexivity].
+Qed.
+
+Definition err_ok {A} (r : rs A) : Prop := match r with Err FuelE => False | _ => True end.
+
+Lemma header_inv st : d_done st = false ->
+  match dc_header st with
+  | Err e => e = OSErrorE /\ Cof (ref_state st) = false
+  | Ok (len1, rest1) =>
+    ref_state st = (if len1 =? 0 then final_of rest1 else ref_mid len1 rest1) /\
+    (length rest1 <= length (d_rest st))%nat /\
+    (d_len st = 0 -> (length rest1 < length (d_rest st))%nat)
+  end.
+Proof.
+  intro Hd. unfold dc_header, ref_state. rewrite Hd, dc_zero1_eq.
+  destruct (d_len st =? 0) eqn:Hz.
+  - rewrite read_chunk_len_eq, ref_unfold. destruct (rf_readline (d_rest st)) as [line r] eqn:R. cbv zeta.
+    destruct (hex_str (strip uni_ws line)) eqn:Hh; [|split; reflexivity].
+    apply readline_len in R. destruct R as [R1 R2]. specialize (R2 (hex_line_nonempty _ Hh)).
+    spl; [|lia|intros _; exact R2].
+    unfold final_of. destruct (hex_value (strip uni_ws line) =? 0); reflexivity.
+  - rewrite Hz. spl; [reflexivity|lia|intro H; lia].
+Qed.
+
+Lemma data_inv len1 rest1 size read acc : 0 < len1 -> read < size ->
+  match dc_data len1 rest1 size read acc with
+  | Err e => e = OSErrorE /\ Cof (ref_mid len1 rest1) = false
+  | Ok (len2, rest2, read2, acc2) =>
+    exists data, data <> [] /\ acc2 = acc ++ data /\ read2 = read + lenN data /\ read2 <= size /\
+      len2 = len1 - lenN data /\ lenN data <= len1 /\
+      ref_mid len1 rest1 = prepend data (ref_mid len2 rest2) /\
+      (length rest2 < length rest1)%nat
+  end.
+Proof.
+  intros Hl Hr. unfold dc_data. rewrite dc_pos_eq. replace (0 <? len1) with true by lia.
+  rewrite dc_n_eq by exact Hr. cbv zeta. remember (N.min (size - read) len1) as n eqn:En.
+  rewrite dc_short_eq. destruct (lenN (takeN n rest1) =? n) eqn:Hs; cbn [negb].
+  2:{ split; [reflexivity|]. unfold ref_mid. cbv zeta. rewrite lenN_takeN in *.
+      replace (N.min len1 (lenN rest1) <? len1) with true by lia. reflexivity. }
+  assert (Hn : lenN (takeN n rest1) = n) by lia.
+  exists (takeN n rest1). rewrite Hn.
+  split; [intro E; rewrite E in Hn; cbn [lenN length N.of_nat] in Hn; lia|].
+  split; [reflexivity|]. split; [reflexivity|]. split; [lia|]. split; [reflexivity|]. split; [lia|].
+  split; [apply ref_mid_split; [lia|exact Hn]|].
+  unfold dropN. rewrite skipn_length. rewrite lenN_takeN in Hn. unfold lenN in Hn. lia.
+Qed.
+
+Lemma data_zero rest1 size read acc : dc_data 0 rest1 size read acc = Ok (0, rest1, read, acc).
+Proof. unfold dc_data. rewrite dc_pos_eq. reflexivity. Qed.
+
+Lemma term_inv len2 rest2 :
+  match dc_term len2 rest2 with
+  | Err e => e = OSErrorE /\ len2 = 0 /\ Cof (final_of rest2) = false /\ Cof (ref_mid 0 rest2) = false
+  | Ok rest3 =>
+    (length rest3 <= length rest2)%nat /\
+    (if len2 =? 0 then exists term, rf_readline rest2 = (term, rest3) /\ is_term term = true else rest3 = rest2)
+  end.
+Proof.
+  unfold dc_term. rewrite dc_zero3_eq. destruct (len2 =? 0) eqn:Hz.
+  - destruct (rf_readline rest2) as [term rest3] eqn:R. rewrite terminators_eq.
+    destruct (is_term term) eqn:Ht.
+    2:{ spl; [reflexivity|lia| |]; [unfold final_of|rewrite ref_mid_zero]; rewrite R, Ht; reflexivity. }
+    split; [apply readline_len in R; apply R|]. exists term. auto.
+  - split; [lia|reflexivity].
+Qed.
+
+Lemma loop_done f st size read acc : d_done st = true -> dc_loop f st size read acc = Ok (acc, st).
+Proof. intro H. destruct f; cbn [dc_loop]; rewrite dc_continue_eq, H; reflexivity. Qed.
+
+Lemma loop_inv : forall fuel st size read acc, (length (d_rest st) < fuel)%nat -> read <= size ->
+  match dc_loop fuel st size read acc with
+  | Ok (acc', st') =>
+    exists d, acc' = acc ++ d /\ peel d (ref_state st) (ref_state st') /\
+              (read + lenN d = size \/ d_done st' = true) /\
+              (length (d_rest st') <= length (d_rest st))%nat /\ read + lenN d <= size
+  | Err e => e = OSErrorE /\ Cof (ref_state st) = false
+  end.
+Proof.
+  induction fuel as [|f IH]; intros st size read acc Hf Hr; [inversion Hf|].
+  cbn [dc_loop]. rewrite dc_continue_eq.
+  destruct (negb (d_done st) && (read <? size)) eqn:Hc; cbn [negb].
+  2:{ exists []. rewrite app_nil_r. cbn [lenN length N.of_nat]. spl; auto; [apply peel_refl| |lia].
+      destruct (d_done st); [right; reflexivity|left]. cbn [negb andb] in *. lia. }
+  apply andb_prop in Hc. destruct Hc as [Hd Hlt].
+  assert (Hdone : d_done st = false) by (destruct (d_done st); [discriminate|reflexivity]).
+  assert (Hrs : read < size) by lia.
+  pose proof (header_inv st Hdone) as HH. destruct (dc_header st) as [[len1 rest1]|e]; [|exact HH].
+  destruct HH as [Href [Hlen1 Hlen1']]. rewrite dc_zero2_eq.
+  destruct (len1 =? 0) eqn:Hz.
+  - (* the zero chunk *)
+    assert (len1 = 0) by lia. subst len1. rewrite data_zero.
+    pose proof (term_inv 0 rest1) as HT. destruct (dc_term 0 rest1) as [rest3|e].
+    2:{ destruct HT as [He [_ [Hc _]]]. split; [exact He|]. rewrite Href. exact Hc. }
+    destruct HT as [Hl3 [term [HR Hterm]]].
+    rewrite loop_done by reflexivity.
+    exists []. rewrite app_nil_r. spl; auto.
+    + rewrite Href. unfold final_of, ref_state. cbn [d_done d_rest]. rewrite HR, Hterm. apply peel_refl.
+    + cbn [d_rest]. lia.
+    + cbn [lenN length N.of_nat]. lia.
+  - (* a data chunk, fresh or continued *)
+    assert (Hpos : 0 < len1) by lia.
+    pose proof (data_inv len1 rest1 size read acc Hpos Hrs) as HD.
+    destruct (dc_data len1 rest1 size read acc) as [[[[len2 rest2] read2] acc2]|e].
+    2:{ destruct HD as [He Hc]. split; [exact He|]. rewrite Href. exact Hc. }
+    destruct HD as [data [Hne [Hacc [Hread [Hle [Hlen2 [Hdl [Hmid Hl2]]]]]]]].
+    pose proof (term_inv len2 rest2) as HT. destruct (dc_term len2 rest2) as [rest3|e].
+    2:{ destruct HT as [He [Hz2 [_ Hc]]]. split; [exact He|]. rewrite Href, Hmid, Hz2.
+        unfold prepend, Cof in *. cbn [fst snd]. exact Hc. }
+    destruct HT as [Hl3 HT]. rewrite Hdone.
+    assert (Hst : peel data (ref_state st) (ref_state {| d_len := len2; d_done := false; d_rest := rest3 |})).
+    { rewrite Href, Hmid. unfold ref_state. cbn [d_done d_len d_rest].
+      destruct (len2 =? 0) eqn:Hz2.
+      - assert (len2 = 0) by lia. subst len2. destruct HT as [term [HR Hterm]].
+        rewrite H, ref_mid_zero, HR, Hterm. apply peel_prepend.
+      - subst rest3. apply peel_prepend. }
+    specialize (IH {| d_len := len2; d_done := false; d_rest := rest3 |} size read2 acc2).
+    cbn [d_rest] in IH. assert (Hf3 : (length rest3 < f)%nat) by lia. specialize (IH Hf3 Hle).
+    destruct (dc_loop f {| d_len := len2; d_done := false; d_rest := rest3 |} size read2 acc2) as [[acc' st']|e].
+    2:{ destruct IH as [He Hc]. split; [exact He|]. destruct Hst as [_ [Hcc _]]. rewrite Hcc. exact Hc. }
+    destruct IH as [d [Ha [Hp [Hor [Hl Hsz]]]]]. exists (data ++ d). spl.
+    + rewrite Ha, Hacc, app_assoc. reflexivity.
+    + eapply peel_trans; [exact Hst|exact Hp].
+    + destruct Hor as [Hor|Hor]; [left|right; exact Hor]. rewrite lenN_app. lia.
+    + cbn [d_rest] in Hl. lia.
+    + rewrite lenN_app. lia.
+Qed.
+
+
+(* ------------------------------------------------------------------ read(size) and sequences of reads *)
+Lemma read_inv st size :
+  match dc_read st size with
+  | Ok (d, st') =>
+    peel d (ref_state st) (ref_state st') /\ (lenN d = size \/ d_done st' = true) /\ lenN d <= size
+  | Err e => e = OSErrorE /\ Cof (ref_state st) = false
+  end.
+Proof.
+  unfold dc_read. pose proof (loop_inv (S (length (d_rest st))) st size 0 [] (Nat.lt_succ_diag_r _)) as H.
+  assert (H0 : 0 <= size) by lia. specialize (H H0).
+  destruct (dc_loop (S (length (d_rest st))) st size 0 []) as [[acc' st']|e]; [|exact H].
+  destruct H as [d [Ha [Hp [Hor [_ Hsz]]]]]. cbn [app] in Ha. subst acc'. spl; auto; lia.
+Qed.
+
+(* a finished stream stays finished and yields nothing *)
+Lemma read_done st size : d_done st = true -> dc_read st size = Ok ([], st).
+Proof. intro H. unfold dc_read. apply loop_done. exact H. Qed.
+
+Lemma done_ref st : d_done st = true -> ref_state st = ([], true, d_rest st).
+Proof. intro H. unfold ref_state. rewrite H. reflexivity. Qed.
+
+(* one read returns exactly the next min(size, remaining) bytes of the reference body *)
+Lemma read_exact st size d st' : dc_read st size = Ok (d, st') -> d = takeN size (Dof (ref_state st)).
+Proof.
+  intro H. pose proof (read_inv st size) as G. rewrite H in G. destruct G as [[HD _] [Hor Hle]].
+  rewrite HD. destruct Hor as [Hs|Hdone].
+  - rewrite <- Hs. symmetry. apply takeN_app_exact.
+  - rewrite (done_ref st' Hdone). unfold Dof. cbn [fst]. rewrite app_nil_r. symmetry. apply takeN_all. exact Hle.
+Qed.
+
+Lemma reads_inv : forall sizes st,
+  match dc_reads st sizes with
+  | (outs, e, st') =>
+    peel (concat outs) (ref_state st) (ref_state st') /\
+    outs = chop (firstn (length outs) sizes) (Dof (ref_state st)) /\
+    match e with
+    | None => length outs = length sizes
+    | Some e => e = OSErrorE /\ Cof (ref_state st) = false
+    end
+  end.
+Proof.
+  induction sizes as [|n r IH]; intro st; cbn [dc_reads].
+  - spl; auto. apply peel_refl.
+  - pose proof (read_inv st n) as G. pose proof (read_exact st n) as E.
+    destruct (dc_read st n) as [[d st1]|e].
+    + specialize (IH st1). destruct (dc_reads st1 r) as [[l e] st2]. destruct IH as [Hp [Hc He]].
+      destruct G as [Hp1 _]. specialize (E d st1 eq_refl). spl.
+      * cbn [concat]. eapply peel_trans; [exact Hp1|exact Hp].
+      * cbn [length firstn chop]. rewrite <- E. f_equal.
+        assert (HB : dropN n (Dof (ref_state st)) = Dof (ref_state st1)).
+        { destruct Hp1 as [HD _]. pose proof (takeN_dropN n (Dof (ref_state st))) as HB.
+          rewrite <- E in HB. rewrite HD in HB at 2. apply app_inv_head in HB. exact HB. }
+        rewrite HB. exact Hc.
+      * destruct e as [e|]; [|cbn [length]; lia].
+        destruct He as [He Hcf]. split; [exact He|]. destruct Hp1 as [_ [Hcc _]]. rewrite Hcc. exact Hcf.
+    + cbn [concat length firstn chop]. spl; auto; try apply peel_refl; apply G.
+Qed.
+
+Lemma reads_done : forall sizes st, d_done st = true ->
+  dc_reads st sizes = (map (fun _ => []) sizes, None, st).
+Proof.
+  induction sizes as [|n r IH]; intros st H; cbn [dc_reads map]; [reflexivity|].
+  rewrite read_done by exact H. rewrite IH by exact H. reflexivity.
+Qed.
+
+Lemma concat_nils (A B : Type) (l : list A) : concat (map (fun _ => @nil B) l) = [].
+Proof. induction l; cbn [map concat app]; auto. Qed.
+
+Lemma reads_sum : forall sizes st,
+  match dc_reads st sizes with
+  | (outs, None, st') => d_done st' = true \/ lenN (concat outs) = sumN sizes
+  | _ => True
+  end.
+Proof.
+  induction sizes as [|n r IH]; intro st; cbn [dc_reads]; [right; reflexivity|].
+  pose proof (read_inv st n) as G. destruct (dc_read st n) as [[d st1]|e]; [|exact I].
+  destruct G as [_ [Hor _]]. destruct Hor as [Hn|Hdone].
+  - specialize (IH st1). destruct (dc_reads st1 r) as [[l e] st2]. destruct e; [exact I|].
+    destruct IH as [IH|IH]; [left; exact IH|right]. cbn [concat sumN fold_right]. rewrite lenN_app.
+    unfold sumN in IH. lia.
+  - rewrite (reads_done r st1 Hdone). left. exact Hdone.
+Qed.
+
+(* ------------------------------------------------------------------ every well-framed encoding *)
+Lemma list_eqb_eq a b : list_eqb a b = true -> a = b.
+Proof.
+  revert b. induction a as [|x a IH]; destruct b as [|y b]; cbn [list_eqb]; intro H;
+    try discriminate; [reflexivity|].
+  apply andb_prop in H. destruct H as [Hx Hab]. apply N.eqb_eq in Hx. subst y.
+  f_equal. apply IH. exact Hab.
+Qed.
+
+Lemma term_cases t : term_ok t = true -> t = [LF] \/ t = CRLF.
+Proof.
+  unfold term_ok. intro H. apply orb_prop in H. destruct H as [H|H]; apply list_eqb_eq in H; auto.
+Qed.
+
+Lemma pad_ws p : pad_ok p = true -> forallb uni_ws p = true.
+Proof. unfold pad_ok. apply forallb_impl. intros c H. unfold uni_ws. lia. Qed.
+Lemma pad_nolf p : pad_ok p = true -> forallb (fun c => negb (LF =? c)) p = true.
+Proof. unfold pad_ok. apply forallb_impl. intros c H. unfold LF. lia. Qed.
+Lemma hex_nows h : forallb is_hex h = true -> forallb (fun c => negb (uni_ws c)) h = true.
+Proof. apply forallb_impl. intros c H. unfold is_hex, is_digit, uni_ws in *. lia. Qed.
+Lemma hex_nolf h : forallb is_hex h = true -> forallb (fun c => negb (LF =? c)) h = true.
+Proof. apply forallb_impl. intros c H. unfold is_hex, is_digit, LF in *. lia. Qed.
+Lemma hex_str_all h : hex_str h = true -> h <> [] /\ forallb is_hex h = true.
+Proof. destruct h; [discriminate|]. intro H. split; [discriminate|exact H]. Qed.
+
+Lemma readline_line k r : forallb (fun c => negb (LF =? c)) k = true -> rf_readline (k ++ LF :: r) = (k ++ [LF], r).
+Proof. intro H. unfold rf_readline. rewrite partition1_app_stop by exact H. reflexivity. Qed.
+
+Lemma rstrip_all (p : N -> bool) z : forallb p z = true -> rstrip p z = [].
+Proof.
+  induction z as [|x z IH]; cbn [rstrip forallb]; intro H; [reflexivity|].
+  apply andb_prop in H. destruct H as [Hx Hz]. rewrite (IH Hz), Hx. reflexivity.
+Qed.
+
+Lemma rstrip_app_all (p : N -> bool) m z : forallb p z = true -> rstrip p (m ++ z) = rstrip p m.
+Proof.
+  intro H. induction m as [|x m IH]; cbn [app rstrip]; [apply rstrip_all; exact H|]. rewrite IH. reflexivity.
+Qed.
+
+Lemma strip_mid (p : N -> bool) a h z : forallb p a = true -> forallb p z = true -> h <> [] ->
+  forallb (fun c => negb (p c)) h = true -> strip p (a ++ h ++ z) = h.
+Proof.
+  intros Ha Hz Hne Hh. unfold strip. destruct h as [|x h]; [congruence|].
+  cbn [forallb] in Hh. apply andb_prop in Hh. destruct Hh as [Hx Hh'].
+  change (a ++ (x :: h) ++ z) with (a ++ x :: (h ++ z)).
+  rewrite drop_while_app_stop; [|exact Ha|destruct (p x); [discriminate|reflexivity]].
+  change (x :: h ++ z) with ((x :: h) ++ z). rewrite rstrip_app_all by exact Hz.
+  apply rstrip_none. cbn [forallb]. rewrite Hx, Hh'. reflexivity.
+Qed.
+
+(* a size line: blanks, hexadecimal digits, blanks, LF or CRLF *)
+Lemma header_line_ok pad1 h pad2 t1 R :
+  pad_ok pad1 = true -> pad_ok pad2 = true -> hex_str h = true -> term_ok t1 = true ->
+  rf_readline (pad1 ++ h ++ pad2 ++ t1 ++ R) = (pad1 ++ h ++ pad2 ++ t1, R) /\
+  strip uni_ws (pad1 ++ h ++ pad2 ++ t1) = h.
+Proof.
+  intros H1 H2 Hh Ht. apply hex_str_all in Hh. destruct Hh as [Hne Hh].
+  apply term_cases in Ht. split.
+  - destruct Ht as [Ht|Ht]; subst t1.
+    + replace (pad1 ++ h ++ pad2 ++ [LF] ++ R) with ((pad1 ++ h ++ pad2) ++ LF :: R)
+        by (rewrite <- !app_assoc; reflexivity).
+      rewrite readline_line.
+      * rewrite <- !app_assoc. reflexivity.
+      * rewrite !forallb_app, (pad_nolf _ H1), (pad_nolf _ H2), (hex_nolf _ Hh). reflexivity.
+    + unfold CRLF. replace (pad1 ++ h ++ pad2 ++ [CR; LF] ++ R) with ((pad1 ++ h ++ pad2 ++ [CR]) ++ LF :: R)
+        by (rewrite <- !app_assoc; reflexivity).
+      rewrite readline_line.
+      * rewrite <- !app_assoc. reflexivity.
+      * rewrite !forallb_app, (pad_nolf _ H1), (pad_nolf _ H2), (hex_nolf _ Hh). reflexivity.
+  - apply strip_mid; auto.
+    + apply pad_ws. exact H1.
+    + rewrite forallb_app, (pad_ws _ H2). destruct Ht as [Ht|Ht]; subst t1; reflexivity.
+    + apply hex_nows. exact Hh.
+Qed.
+
+Lemma term_line_ok t R : term_ok t = true -> rf_readline (t ++ R) = (t, R) /\ is_term t = true.
+Proof.
+  intro H. apply term_cases in H. destruct H as [H|H]; subst t.
+  - split; [apply (readline_line [] R); reflexivity|reflexivity].
+  - split; [apply (readline_line [CR] R); reflexivity|reflexivity].
+Qed.
+
+Lemma cenc_ok_parts c : cenc_ok c = true ->
+  pad_ok (c_pad1 c) = true /\ pad_ok (c_pad2 c) = true /\ hex_str (c_hex c) = true /\
+  hex_value (c_hex c) = lenN (c_data c) /\ 0 < lenN (c_data c) /\ term_ok (c_t1 c) = true /\ term_ok (c_t2 c) = true.
+Proof. unfold cenc_ok. intro H. repeat (apply andb_prop in H; destruct H as [H ?]). spl; auto; lia. Qed.
+
+Lemma ref_frame c R : cenc_ok c = true -> ref (frame c ++ R) = prepend (c_data c) (ref R).
+Proof.
+  intro H. apply cenc_ok_parts in H. destruct H as [H1 [H2 [Hh [Hv [Hpos [Ht1 Ht2]]]]]].
+  rewrite ref_unfold. unfold frame. rewrite <- !app_assoc.
+  destruct (header_line_ok (c_pad1 c) (c_hex c) (c_pad2 c) (c_t1 c) (c_data c ++ c_t2 c ++ R) H1 H2 Hh Ht1) as [HR HS].
+  rewrite HR. cbv zeta. rewrite HS, Hh, Hv. replace (lenN (c_data c) =? 0) with false by lia.
+  unfold ref_mid. cbv zeta. rewrite takeN_app_exact, dropN_app_exact.
+  replace (lenN (c_data c) <? lenN (c_data c)) with false by lia.
+  destruct (term_line_ok (c_t2 c) R Ht2) as [HR2 HT2]. rewrite HR2, HT2. reflexivity.
+Qed.
+
+Lemma fenc_ok_parts f : fenc_ok f = true ->
+  pad_ok (f_pad1 f) = true /\ pad_ok (f_pad2 f) = true /\ hex_str (f_zeros f) = true /\
+  hex_value (f_zeros f) = 0 /\ term_ok (f_t1 f) = true /\ term_ok (f_t2 f) = true.
+Proof. unfold fenc_ok. intro H. repeat (apply andb_prop in H; destruct H as [H ?]). spl; auto; lia. Qed.
+
+Lemma ref_final f tail : fenc_ok f = true -> ref (frame_final f ++ tail) = ([], true, tail).
+Proof.
+  intro H. apply fenc_ok_parts in H. destruct H as [H1 [H2 [Hh [Hv [Ht1 Ht2]]]]].
+  rewrite ref_unfold. unfold frame_final. rewrite <- !app_assoc.
+  destruct (header_line_ok (f_pad1 f) (f_zeros f) (f_pad2 f) (f_t1 f) (f_t2 f ++ tail) H1 H2 Hh Ht1) as [HR HS].
+  rewrite HR. cbv zeta. rewrite HS, Hh, Hv. cbn [N.eqb].
+  destruct (term_line_ok (f_t2 f) tail Ht2) as [HR2 HT2]. rewrite HR2, HT2. reflexivity.
+Qed.
+
+Lemma ref_wire cs f tail : forallb cenc_ok cs = true -> fenc_ok f = true ->
+  ref (wire cs f tail) = (body cs, true, tail).
+Proof.
+  intros Hcs Hf. unfold wire, body. induction cs as [|c cs IH]; cbn [map concat app].
+  - apply ref_final. exact Hf.
+  - cbn [forallb] in Hcs. apply andb_prop in Hcs. destruct Hcs as [Hc Hcs].
+    rewrite <- app_assoc, (ref_frame c _ Hc), (IH Hcs). reflexivity.
+Qed.
+
+(* ------------------------------------------------------------------ the property theorems *)
+Lemma init_ref w : ref_state (dst_init w) = ref w.
+Proof. reflexivity. Qed.
+
+Lemma dechunk_exact cs f tail sizes : forallb cenc_ok cs = true -> fenc_ok f = true ->
+  match dc_reads (dst_init (wire cs f tail)) sizes with
+  | (outs, e, st) =>
+    e = None /\ outs = chop sizes (body cs) /\
+    (lenN (body cs) < sumN sizes -> d_done st = true /\ d_rest st = tail /\
+                                    forall n, dc_read st n = Ok ([], st))
+  end.
+Proof.
+  intros Hcs Hf. pose proof (reads_inv sizes (dst_init (wire cs f tail))) as H.
+  pose proof (reads_sum sizes (dst_init (wire cs f tail))) as S.
+  destruct (dc_reads (dst_init (wire cs f tail)) sizes) as [[outs e] st].
+  rewrite init_ref, (ref_wire cs f tail Hcs Hf) in H. destruct H as [Hp [Hc He]].
+  destruct e as [e|]; [destruct He as [_ He]; discriminate|].
+  unfold Dof in Hc. cbn [fst] in Hc. rewrite He, firstn_all in Hc. spl; auto.
+  intro Hlt. assert (Hdone : d_done st = true).
+  { destruct S as [S|S]; [exact S|]. destruct Hp as [HD _]. unfold Dof at 1 in HD. cbn [fst] in HD.
+    rewrite HD, lenN_app in Hlt. lia. }
+  spl; auto.
+  - destruct Hp as [_ [_ HT]]. rewrite (done_ref st Hdone) in HT. unfold Tof in HT. cbn [snd] in HT. auto.
+  - intro n. apply read_done. exact Hdone.
+Qed.
+
+Lemma dechunk_safe w sizes :
+  match dc_reads (dst_init w) sizes with
+  | (outs, e, st) =>
+    (exists rest, Dof (ref w) = concat outs ++ rest) /\
+    outs = chop (firstn (length outs) sizes) (Dof (ref w)) /\
+    match e with
+    | None => length outs = length sizes
+    | Some e => e = OSErrorE /\ Cof (ref w) = false
+    end /\
+    (d_done st = true -> Cof (ref w) = true /\ concat outs = Dof (ref w) /\ d_rest st = Tof (ref w))
+  end.
+Proof.
+  pose proof (reads_inv sizes (dst_init w)) as H.
+  destruct (dc_reads (dst_init w) sizes) as [[outs e] st]. rewrite init_ref in H.
+  destruct H as [[HD [HC HT]] [Hc He]]. spl; auto.
+  - eexists. exact HD.
+  - intro Hdone. rewrite (done_ref st Hdone) in *. unfold Dof, Cof, Tof in *. cbn [fst snd] in *.
+    rewrite app_nil_r in HD. auto.
+Qed.
+
+Lemma dechunk_malformed w sizes : Cof (ref w) = false -> lenN (Dof (ref w)) < sumN sizes ->
+  match dc_reads (dst_init w) sizes with
+  | (outs, e, st) => e = Some OSErrorE /\ exists rest, Dof (ref w) = concat outs ++ rest
+  end.
+Proof.
+  intros Hc Hlt. pose proof (dechunk_safe w sizes) as H. pose proof (reads_sum sizes (dst_init w)) as S.
+  destruct (dc_reads (dst_init w) sizes) as [[outs e] st]. destruct H as [Hpre [_ [He Hdone]]].
+  split; [|exact Hpre]. destruct e as [e|]; [destruct He as [He _]; subst e; reflexivity|].
+  exfalso. destruct S as [S|S].
+  - destruct (Hdone S) as [Hc' _]. congruence.
+  - destruct Hpre as [rest HD]. rewrite HD, lenN_app in Hlt. lia.
+Qed.
+
+(* ------------------------------------------------------------------ response framing *)
+Definition hv (a0 : N) (s : str) : N := fold_left (fun acc c => acc * 16 + hex_val c) s a0.
+
+Lemma hex_digit_val d : d < 16 -> hex_val (hex_digit d) = d /\ is_hex (hex_digit d) = true.
+Proof.
+  intro H. unfold hex_digit. destruct (d <? 10) eqn:E; unfold hex_val, is_hex, is_digit.
+  - replace ((48 <=? 48 + d) && (48 + d <=? 57)) with true by lia. cbn [orb]. split; [lia|reflexivity].
+  - replace ((48 <=? 87 + d) && (87 + d <=? 57)) with false by lia.
+    replace ((65 <=? 87 + d) && (87 + d <=? 70)) with false by lia.
+    replace ((97 <=? 87 + d) && (87 + d <=? 102)) with true by lia. cbn [orb]. split; [lia|reflexivity].
+Qed.
+
+Lemma hex_digits_spec : forall fuel n acc, n < 16 ^ N.of_nat fuel ->
+  hv 0 (hex_digits fuel n acc) = hv n acc /\
+  (forallb is_hex acc = true -> forallb is_hex (hex_digits fuel n acc) = true) /\
+  (fuel <> O -> hex_digits fuel n acc <> []).
+Proof.
+  induction fuel as [|f IH]; intros n acc Hn.
+  - cbn [N.of_nat N.pow] in Hn. assert (n = 0) by lia. subst n. cbn [hex_digits]. spl; auto; try congruence.
+  - cbn [hex_digits]. assert (Hd : n mod 16 < 16) by (apply N.mod_lt; lia).
+    destruct (hex_digit_val _ Hd) as [Hv Hh].
+    assert (Hstep : hv (n / 16) (hex_digit (n mod 16) :: acc) = hv n acc).
+    { unfold hv. cbn [fold_left]. rewrite Hv. f_equal. pose proof (N.div_mod n 16). lia. }
+    destruct (n / 16 =? 0) eqn:Hz.
+    + spl.
+      * rewrite <- Hstep. replace (n / 16) with 0 by lia. reflexivity.
+      * intro Ha. cbn [forallb]. rewrite Hh, Ha. reflexivity.
+      * intros _. discriminate.
+    + assert (Hlt : n / 16 < 16 ^ N.of_nat f).
+      { apply N.div_lt_upper_bound; [lia|]. rewrite Nat2N.inj_succ, N.pow_succ_r in Hn by lia. exact Hn. }
+      destruct (IH (n / 16) (hex_digit (n mod 16) :: acc) Hlt) as [I1 [I2 I3]]. spl.
+      * rewrite I1. exact Hstep.
+      * intro Ha. apply I2. cbn [forallb]. rewrite Hh, Ha. reflexivity.
+      * intros _. destruct f as [|f'].
+        -- cbn [N.of_nat N.pow] in Hlt. lia.
+        -- apply I3. discriminate.
+Qed.
+
+Lemma hex_of_N_ok n : hex_str (hex_of_N n) = true /\ hex_value (hex_of_N n) = n.
+Proof.
+  unfold hex_of_N.
+  assert (Hn : n < 16 ^ N.of_nat (S (N.to_nat (N.log2 n)))).
+  { rewrite Nat2N.inj_succ, N2Nat.id. destruct (N.eq_dec n 0) as [->|Hnz]; [reflexivity|].
+    assert (Hpos : 0 < n) by lia. pose proof (N.log2_spec n Hpos) as [_ H2].
+    eapply N.lt_le_trans; [exact H2|]. apply N.pow_le_mono_l. lia. }
+  destruct (hex_digits_spec _ n [] Hn) as [H1 [H2 H3]].
+  split.
+  - unfold hex_str. destruct (hex_digits (S (N.to_nat (N.log2 n))) n []) eqn:E.
+    + exfalso. apply H3; [discriminate|reflexivity].
+    + apply H2. reflexivity.
+  - exact H1.
+Qed.
+
+Lemma seps_pinned : chunk_sep1 = CRLF /\ chunk_sep2 = CRLF /\ final_chunk = [48] ++ CRLF ++ CRLF.
+Proof. repeat split. Qed.
+
+Definition enc_piece (p : bytes) : cenc :=
+  {| c_pad1 := []; c_hex := hex_of_N (lenN p); c_pad2 := []; c_t1 := CRLF; c_data := p; c_t2 := CRLF |}.
+Definition fin_enc : fenc := {| f_pad1 := []; f_zeros := [48]; f_pad2 := []; f_t1 := CRLF; f_t2 := CRLF |}.
+Definition nonempty (p : bytes) : bool := match p with [] => false | _ => true end.
+
+Lemma body_is_wire pieces tail :
+  response_body true pieces ++ tail = wire (map enc_piece (filter nonempty pieces)) fin_enc tail /\
+  forallb cenc_ok (map enc_piece (filter nonempty pieces)) = true /\
+  body (map enc_piece (filter nonempty pieces)) = concat pieces.
+Proof.
+  unfold response_body, wire, body. destruct seps_pinned as [S1 [S2 S3]].
+  induction pieces as [|p ps IH]; cbn [map filter concat app forallb].
+  - rewrite S3. spl; reflexivity.
+  - destruct IH as [I1 [I2 I3]]. destruct p as [|x p]; cbn [nonempty chunk_frame map concat app forallb].
+    + spl; auto.
+    + spl.
+      * transitivity ((hex_of_N (lenN (x :: p)) ++ CRLF ++ (x :: p) ++ CRLF)
+                      ++ ((concat (map (chunk_frame true) ps) ++ final_chunk) ++ tail)).
+        { rewrite S1, S2. repeat rewrite <- app_assoc. cbn [app]. repeat rewrite <- app_assoc. reflexivity. }
+        rewrite <- (app_assoc (frame (enc_piece (x :: p)))).
+        apply f_equal2; [|exact I1].
+        unfold frame, enc_piece. cbn [c_pad1 c_hex c_pad2 c_t1 c_data c_t2 app]. reflexivity.
+      * rewrite I2. unfold cenc_ok, enc_piece. cbn [c_pad1 c_hex c_pad2 c_t1 c_data c_t2 pad_ok forallb].
+        destruct (hex_of_N_ok (lenN (x :: p))) as [H1 H2]. rewrite H1, H2, N.eqb_refl.
+        replace (0 <? lenN (x :: p)) with true by (rewrite lenN_cons; lia). reflexivity.
+      * unfold enc_piece at 1. cbn [c_data]. rewrite I3. reflexivity.
+Qed.
+
+Lemma body_unchunked pieces : response_body false pieces = concat pieces.
+Proof.
+  unfold response_body. rewrite app_nil_r.
+  induction pieces as [|p ps IH]; cbn [map concat]; [reflexivity|]. rewrite IH.
+  destruct p; reflexivity.
+Qed.
+
+Lemma response_framing proto method expect server date status headers pieces out :
+  respond proto method expect server date status headers pieces = Some out ->
+  exists code msg, split_status status = Some (code, msg) /\
+    let chunked := uses_chunked proto method code headers in
+    out = response_head proto expect server date code msg headers chunked ++ response_body chunked pieces /\
+    (chunked = false -> response_body chunked pieces = concat pieces) /\
+    (chunked = true -> forall tail, ref (response_body chunked pieces ++ tail) = (concat pieces, true, tail)).
+Proof.
+  unfold respond. destruct (split_status status) as [[code msg]|]; [|discriminate].
+  intro H. inversion H; subst. exists code, msg. split; [reflexivity|]. cbv zeta. spl; auto.
+  - intro Hc. rewrite Hc. apply body_unchunked.
+  - intros Hc tail. rewrite Hc. destruct (body_is_wire pieces tail) as [H1 [H2 H3]].
+    rewrite H1, ref_wire by (auto; reflexivity). rewrite H3. reflexivity.
+Qed.
+
+(* the decoder of the request side reads the response body back, under every read pattern *)
+Lemma response_roundtrip pieces tail sizes :
+  match dc_reads (dst_init (response_body true pieces ++ tail)) sizes with
+  | (outs, e, st) => e = None /\ outs = chop sizes (concat pieces)
+  end.
+Proof.
+  destruct (body_is_wire pieces tail) as [H1 [H2 H3]]. rewrite H1.
+  pose proof (dechunk_exact _ fin_enc tail sizes H2 eq_refl) as H.
+  destruct (dc_reads _ sizes) as [[outs e] st]. destruct H as [He [Ho _]]. rewrite H3 in Ho. auto.
+Qed.
+
+Definition CONTENT_LENGTH_LC : str := [99; 111; 110; 116; 101; 110; 116; 45; 108; 101; 110; 103; 116; 104].
+Definition HEAD : str := [72; 69; 65; 68].
+Definition HTTP11 : str := [72; 84; 84; 80; 47; 49; 46; 49].
+
+Lemma chunked_decision proto method code headers :
+  uses_chunked proto method code headers =
+    negb (mem_str CONTENT_LENGTH_LC (lower_keys headers)) && negb (list_eqb method HEAD)
+    && negb ((100 <=? code) && (code <? 200)) && negb ((code =? 204) || (code =? 304))
+    && str_geb proto HTTP11.
+Proof.
+  unfold uses_chunked, chunk_condition_gen, CONTENT_LENGTH_LC, HEAD, HTTP11.
+  destruct (mem_str _ (lower_keys headers)); destruct (list_eqb method _); destruct (str_geb proto _);
+    cbn [negb andb orb]; try reflexivity; lia.
+Qed.
+
+(* ------------------------------------------------------------------ make_environ: the path *)
+Lemma upper_hex_digit_val d : d < 16 -> hex_val (upper_hex_digit d) = d /\ is_hex (upper_hex_digit d) = true
+                                       /\ printable (upper_hex_digit d) = true.
+Proof.
+  intro H. unfold upper_hex_digit. destruct (d <? 10) eqn:E; unfold hex_val, is_hex, is_digit, printable.
+  - replace ((48 <=? 48 + d) && (48 + d <=? 57)) with true by lia. cbn [orb]. spl; [lia|reflexivity|lia].
+  - replace ((48 <=? 55 + d) && (55 + d <=? 57)) with false by lia.
+    replace ((65 <=? 55 + d) && (55 + d <=? 70)) with true by lia. cbn [orb]. spl; [lia|reflexivity|lia].
+Qed.
+
+Lemma pct_decode_enc keep b : forallb (fun c => c <? 256) b = true -> pct_decode (pct_enc keep b) = b.
+Proof.
+  induction b as [|c r IH]; cbn [forallb pct_enc]; intro H; [reflexivity|].
+  apply andb_prop in H. destruct H as [Hc Hr].
+  destruct (keep c && lit_ok c) eqn:K.
+  - cbn [pct_decode]. apply andb_prop in K. destruct K as [_ K]. unfold lit_ok in K.
+    replace (c =? PCT) with false by lia. rewrite IH by exact Hr. reflexivity.
+  - cbn [pct_decode]. rewrite N.eqb_refl.
+    assert (H1 : c / 16 < 16) by (apply N.div_lt_upper_bound; lia).
+    assert (H2 : c mod 16 < 16) by (apply N.mod_lt; lia).
+    destruct (upper_hex_digit_val _ H1) as [V1 [X1 _]]. destruct (upper_hex_digit_val _ H2) as [V2 [X2 _]].
+    rewrite X1, X2, V1, V2. cbn [andb]. rewrite IH by exact Hr. f_equal.
+    pose proof (N.div_mod c 16). lia.
+Qed.
+
+Lemma pct_enc_chars keep b : forallb (fun c => c <? 256) b = true ->
+  forallb (fun c => printable c && negb (QMARK =? c) && negb (HASH =? c)) (pct_enc keep b) = true.
+Proof.
+  induction b as [|c r IH]; cbn [forallb pct_enc]; intro H; [reflexivity|].
+  apply andb_prop in H. destruct H as [Hc Hr].
+  destruct (keep c && lit_ok c) eqn:K; cbn [forallb]; rewrite IH by exact Hr.
+  - apply andb_prop in K. destruct K as [_ K]. unfold lit_ok, printable, PCT, QMARK, HASH in *. rewrite andb_true_r. lia.
+  - assert (H1 : c / 16 < 16) by (apply N.div_lt_upper_bound; lia).
+    assert (H2 : c mod 16 < 16) by (apply N.mod_lt; lia).
+    destruct (upper_hex_digit_val _ H1) as [_ [X1 P1]]. destruct (upper_hex_digit_val _ H2) as [_ [X2 P2]].
+    rewrite P1, P2. rewrite !andb_true_r.
+    assert (G : forall d, is_hex d = true -> negb (QMARK =? d) && negb (HASH =? d) = true).
+    { intros d Hd. unfold is_hex, is_digit, QMARK, HASH in *. lia. }
+    pose proof (G _ X1). pose proof (G _ X2). unfold printable, PCT, QMARK, HASH in *. lia.
+Qed.
+
+Lemma partition1_absent x s : forallb (fun c => negb (x =? c)) s = true -> partition1 x s = (s, None).
+Proof.
+  induction s as [|y s IH]; cbn [partition1 forallb]; intro H; [reflexivity|].
+  apply andb_prop in H. destruct H as [Hy Hs]. destruct (x =? y); [discriminate|].
+  rewrite IH by exact Hs. reflexivity.
+Qed.
+
+Definition qpart (q : option str) : str := match q with Some s => QMARK :: s | None => [] end.
+Definition qtext (q : option str) : str := match q with Some s => s | None => [] end.
+Definition query_ok (q : option str) : bool :=
+  forallb (fun c => printable c && negb (HASH =? c)) (qtext q).
+
+Lemma urlsplit_origin_form keep b q :
+  forallb (fun c => c <? 256) b = true -> query_ok q = true ->
+  match b with c :: _ => negb (c =? SLASH) | [] => true end = true ->
+  urlsplit (SLASH :: pct_enc keep b ++ qpart q)
+  = Some {| u_scheme := []; u_netloc := []; u_path := SLASH :: pct_enc keep b; u_query := qtext q; u_fragment := [] |}.
+Proof.
+  intros Hb Hq Hfirst. pose proof (pct_enc_chars keep b Hb) as HE. set (E := pct_enc keep b) in *.
+  assert (HEp : forallb printable E = true).
+  { eapply forallb_impl; [|exact HE]. intros c Hc. cbv beta in Hc.
+    apply andb_prop in Hc. destruct Hc as [Hc _]. apply andb_prop in Hc. apply Hc. }
+  assert (HEh : forallb (fun c => negb (HASH =? c)) E = true).
+  { eapply forallb_impl; [|exact HE]. intros c Hc. cbv beta in Hc. apply andb_prop in Hc. apply Hc. }
+  assert (HEq : forallb (fun c => negb (QMARK =? c)) E = true).
+  { eapply forallb_impl; [|exact HE]. intros c Hc. cbv beta in Hc.
+    apply andb_prop in Hc. destruct Hc as [Hc _]. apply andb_prop in Hc. apply Hc. }
+  assert (Hqp : forallb printable (qtext q) = true).
+  { unfold query_ok in Hq. eapply forallb_impl; [|exact Hq]. intros c Hc. cbv beta in Hc. apply andb_prop in Hc. apply Hc. }
+  assert (Hqh : forallb (fun c => negb (HASH =? c)) (qtext q) = true).
+  { unfold query_ok in Hq. eapply forallb_impl; [|exact Hq]. intros c Hc. cbv beta in Hc. apply andb_prop in Hc. apply Hc. }
+  assert (Hprint : forallb printable (SLASH :: E ++ qpart q) = true).
+  { cbn [forallb]. rewrite forallb_app, HEp. replace (printable SLASH) with true by reflexivity. cbn [andb].
+    destruct q as [s|]; cbn [qpart qtext forallb] in *; [|reflexivity].
+    replace (printable QMARK) with true by reflexivity. exact Hqp. }
+  unfold urlsplit. rewrite Hprint. cbn [negb].
+  (* no scheme: the text before a colon starts with a slash *)
+  assert (Hscheme : (let '(scheme, url1) :=
+            match partition1 COLON (SLASH :: E ++ qpart q) with
+            | (before, Some after) =>
+              match before with
+              | c :: _ => if is_alpha c && forallb scheme_char before then (lower before, after)
+                          else ([], SLASH :: E ++ qpart q)
+              | [] => ([], SLASH :: E ++ qpart q)
+              end
+            | (_, None) => ([], SLASH :: E ++ qpart q)
+            end in (scheme, url1)) = ([], SLASH :: E ++ qpart q)).
+  { cbn [partition1]. replace (COLON =? SLASH) with false by reflexivity.
+    destruct (partition1 COLON (E ++ qpart q)) as [a [bb|]]; reflexivity. }
+  destruct (match partition1 COLON (SLASH :: E ++ qpart q) with
+            | (before, Some after) => _ | (_, None) => _ end) as [scheme url1] eqn:Es.
+  inversion Hscheme; subst scheme url1. clear Hscheme Es.
+  (* no authority: the second character is not a slash *)
+  assert (Hss : starts_with [SLASH; SLASH] (SLASH :: E ++ qpart q) = false).
+  { cbn [starts_with]. rewrite N.eqb_refl. cbn [andb]. unfold E.
+    destruct b as [|c r]; cbn [pct_enc app].
+    - destruct q; cbn [qpart]; reflexivity.
+    - destruct (keep c && lit_ok c); cbn [app]; [|reflexivity].
+      replace (SLASH =? c) with false by lia. reflexivity. }
+  rewrite Hss. cbn [mem existsb orb].
+  (* no fragment; the query starts at the first question mark *)
+  assert (Hnohash : forallb (fun c => negb (HASH =? c)) (SLASH :: E ++ qpart q) = true).
+  { cbn [forallb]. rewrite forallb_app, HEh. replace (negb (HASH =? SLASH)) with true by reflexivity. cbn [andb].
+    destruct q as [s|]; cbn [qpart qtext forallb] in *; [|reflexivity].
+    replace (negb (HASH =? QMARK)) with true by reflexivity. exact Hqh. }
+  rewrite (partition1_absent HASH _ Hnohash).
+  assert (Hnoq : forallb (fun c => negb (QMARK =? c)) (SLASH :: E) = true).
+  { cbn [forallb]. rewrite HEq. reflexivity. }
+  destruct q as [s|]; cbn [qpart qtext].
+  - change (SLASH :: E ++ QMARK :: s) with ((SLASH :: E) ++ QMARK :: s).
+    rewrite (partition1_app_stop QMARK (SLASH :: E) s Hnoq). reflexivity.
+  - rewrite app_nil_r. rewrite (partition1_absent QMARK _ Hnoq). reflexivity.
+Qed.
+
+Lemma printable_ascii s : forallb printable s = true -> forallb (fun c => c <? 128) s = true.
+Proof. apply forallb_impl. intros c H. unfold printable in H. lia. Qed.
+
+(* PATH_INFO is the percent-decoded path (decoded as UTF-8 with replacement and re-encoded, i.e.
+   unchanged when it was valid UTF-8), QUERY_STRING the text after the first question mark *)
+Lemma environ_path keep b q hs :
+  forallb (fun c => c <? 256) b = true -> query_ok q = true ->
+  match b with c :: _ => negb (c =? SLASH) | [] => true end = true ->
+  exists e, make_environ (SLASH :: pct_enc keep b ++ qpart q) hs = Some e /\
+            en_path_info e = wsgi_encoding_dance (utf8_decode_replace (SLASH :: b)) /\
+            en_query_string e = qtext q.
+Proof.
+  intros Hb Hq Hf. unfold make_environ. rewrite (urlsplit_origin_form keep b q Hb Hq Hf).
+  cbn [u_scheme u_netloc u_path u_query is_empty andb negb]. eexists. split; [reflexivity|].
+  cbn [en_path_info en_query_string]. split.
+  - unfold unquote. cbn [pct_decode]. replace (SLASH =? PCT) with false by reflexivity.
+    rewrite pct_decode_enc by exact Hb. reflexivity.
+  - unfold wsgi_encoding_dance, latin1_decode. apply utf8_encode_ascii. apply printable_ascii.
+    unfold query_ok in Hq. eapply forallb_impl; [|exact Hq]. intros c Hc. cbv beta in Hc. apply andb_prop in Hc. apply Hc.
+Qed.
+
+Lemma environ_path_utf8 keep s q hs :
+  valid_text s = true -> query_ok q = true ->
+  match s with c :: _ => negb (c =? SLASH) | [] => true end = true ->
+  exists e, make_environ (SLASH :: pct_enc keep (utf8_encode s) ++ qpart q) hs = Some e /\
+            en_path_info e = utf8_encode (SLASH :: s) /\ en_query_string e = qtext q.
+Proof.
+  intros Hv Hq Hf.
+  assert (Hb : forallb (fun c => c <? 256) (utf8_encode s) = true).
+  { apply forallb_forall. intros c Hc. pose proof (utf8_encode_bytes s c Hv Hc). lia. }
+  assert (Hf' : match utf8_encode s with c :: _ => negb (c =? SLASH) | [] => true end = true).
+  { destruct s as [|c r]; [reflexivity|]. unfold utf8_encode. cbn [flat_map].
+    destruct (enc1 c) as [|x xs] eqn:E.
+    - exfalso. unfold enc1 in E. repeat (destruct (_ <? _) in E; try discriminate).
+    - cbn [app]. destruct (x =? SLASH) eqn:Ex; [|reflexivity]. exfalso.
+      assert (Hin : In x (enc1 c)) by (rewrite E; left; reflexivity).
+      assert (Hx : x < 128) by (unfold SLASH in Ex; lia).
+      destruct (enc1_ascii c x Hin Hx) as [_ Hcx]. unfold SLASH in *. lia. }
+  destruct (environ_path keep (utf8_encode s) q hs Hb Hq Hf') as [e [He [Hp Hqs]]].
+  exists e. spl; auto. rewrite Hp.
+  change (SLASH :: utf8_encode s) with (utf8_encode [SLASH] ++ utf8_encode s).
+  rewrite <- utf8_encode_app. cbn [app].
+  rewrite utf8_decode_replace_encode; [reflexivity|]. unfold valid_text in *. cbn [forallb]. rewrite Hv. reflexivity.
+Qed.
